@@ -39,3 +39,8 @@ claim('C12', 'Coq theorems about definitions regenerated from the live library (
       'holes, operator spellings). The definitional laws are proved about those definitions, so a macro whose expansion changes breaks a '
       'proof; FormatField-vs-BytesInteger, ByteSwapped(Int24ub) and Hex/HexDump laws are proved on the interpreters. The oracle runs both '
       'sides of every law on all byte strings of the width (exhaustive for one byte) +-1 and on boundary / out-of-range values.', 'DESIGN.md 6/C12')
+claim('C15', 'Coq theorems (involutions, shortcut = definition, finite sweeps lifted by forallb_forall) + correspondence + definition oracle',
+      'XOR: involution for every key and data, single-byte and all-zero shortcuts equal the cyclic definition, ProcessXor build/parse are the '
+      'transform of the inner bytes / of the stream. Byte and bit order: involutions, bit reversal per byte (256 cases, kernel). Rotation: '
+      'rotl8 inverse for every amount; rejection of non-multiples; amounts cancel. The multi-byte rotation branches and the compression '
+      'codecs are decided by the oracle (big-integer rotation per group, amounts -64..64 x groups 1..8) and correspondence.', 'DESIGN.md 6/C15')
